@@ -153,15 +153,21 @@ class _RealPool(cf.Executor):
         sched.submitted += 1
         errors = sched.errors
         gate = sched.gate
+        # book-keeping for the structural dead-lock test: who submitted the task, who runs it, its state
+        rec = sched.tasks[i] = {"state": "queued", "by": threading.get_ident(), "on": None}
 
         def wrapped(*a, **k):
             if gate is not None:
                 gate.wait(timeout=30)
+            rec["on"] = threading.get_ident()
+            rec["state"] = "running"
             try:
                 return fn(*a, **k)
             except BaseException as e:  # noqa
                 errors.append((i, type(e).__name__, str(e)[:120]))
                 raise
+            finally:
+                rec["state"] = "done"
 
         f = self.real.submit(wrapped, *a, **k)
         if gate is not None and sched.submitted >= sched.gate_after:
@@ -212,6 +218,7 @@ class Sched:
         self.errors = []
         self.batches = []
         self.pools = []
+        self.tasks = {}
         self._rng = np.random.default_rng(self.oseed)
         self._saved = []
 
@@ -266,6 +273,20 @@ class Sched:
     @property
     def threaded(self):
         return self.submitted > 0
+
+    def all_workers_blocked(self, nworkers):
+        """Mode "real": every one of the pool's `nworkers` workers is inside a task
+        that has itself submitted tasks which are still queued.  Nobody is left to
+        run the queued tasks, the running ones wait for them: no schedule can make
+        progress from here (a timing-free dead-lock criterion)."""
+        tasks = list(self.tasks.values())
+        running = [r for r in tasks if r["state"] == "running"]
+        if len(running) < nworkers:
+            return False
+        for r in running:
+            if not any(c["state"] == "queued" and c["by"] == r["on"] for c in tasks):
+                return False
+        return True
 
 
 def partition_zero(n, tbs, threads):
@@ -927,18 +948,6 @@ def run_par_reduce(case):
 
 # -- nested use of the one cached pool ---------------------------------------
 
-def _pool_deadlocked(real, th):
-    """All workers of quimb's genuine pool are blocked while queued tasks exist
-    and nothing moves: the caller can never return."""
-    try:
-        q1 = real._work_queue.qsize()
-        time.sleep(0.4)
-        q2 = real._work_queue.qsize()
-    except Exception:
-        return False
-    return th.is_alive() and q1 > 0 and q1 == q2
-
-
 def _release_pool(real, n):
     """Give a dead-locked ThreadPoolExecutor extra workers so its queue drains
     (only so that the checking process itself can carry on and exit)."""
@@ -1003,18 +1012,19 @@ def run_nested(case):
 
             th = threading.Thread(target=target, daemon=True)
             th.start()
-            th.join(2.0)
-            waited = 2.0
+            t0 = time.time()
             while th.is_alive():
-                real = getattr(orig, "_pool", None)
-                if real is not None and _pool_deadlocked(real, th):
-                    dead = True
-                    _release_pool(real, 4 * t + 8)
-                    th.join(60)
+                th.join(0.02)
+                if not th.is_alive():
                     break
-                th.join(2.0)
-                waited += 2.4
-                if waited > 120:
+                if sc.all_workers_blocked(t):
+                    time.sleep(0.05)
+                    if th.is_alive() and sc.all_workers_blocked(t):
+                        dead = True
+                        _release_pool(getattr(orig, "_pool"), 4 * t + 8)
+                        th.join(60)
+                        break
+                if time.time() - t0 > 120:
                     break
             if th.is_alive():
                 raise HarnessError("nested par_reduce call neither finished nor could be released")
@@ -1425,8 +1435,8 @@ SUBCHECKS = [
                   "kernel threading) vs functools.reduce / np.kron; nt: tasks submitted (>= 3 operands) and threads >= 2"),
     SubCheck("par_reduce_nested", run_nested, s_nested, examples=(40, 400), shards=(1, 4),
              rule="kron(*ops, parallel=True) / par_reduce on quimb's genuine cached pool with k default workers where the "
-                  "pairwise products themselves start threaded kernels (> 128 rows): must return (watchdog: pool queue "
-                  "non-empty and static with the caller blocked = dead-lock) and equal np.kron; nt: >= 1 nested product"),
+                  "pairwise products themselves start threaded kernels (> 128 rows): must return (dead-lock criterion, timing free: every "
+                  "worker runs a task whose own sub-tasks are still queued) and equal np.kron; nt: >= 1 nested product"),
     SubCheck("builder_coo", run_builder_coo, lambda tier: s_builder(tier, "coo"), examples=(200, 2500), shards=(1, 4),
              rule="SparseOperatorBuilder.build_coo_data / build_sparse_matrix / build_dense with parallel in {2,3,5,16,33,True} "
                   "on generated term lists (no symmetry, Z2, U1 sectors, 1-6 sites): the multiset of (row, col, value) "
